@@ -73,6 +73,10 @@ checks = {
  "C12": ("B", "exhaustive enumeration of form assignments (native / alias / alias with String / pointers) over nested positions, differential against the all-native tree",
          "For every base tree (nested Stacks, Conditions with leaf and Stack expressions, nil gaps, empty stacks, multi-byte leaves) every assignment of a form to every nested Stack position (6 forms) and Condition position (5 forms) is built and compared with the all-native tree from the same description: String, Unmarshal, per-node Kind/Len/IsNesting/String, Condition Len/IsNesting/IsFIFO, Traverse over every path, IsEqual both ways, Defrag and Transfer results; plus no-nesting refusal (Push, SetExpression), Transfer-into and ConvertStack/ConvertCondition for every form (underlying instance by address) and for nil, zero aliases, nil pointers and unrelated types.",
          "Trusted: the native tree as the oracle (its own behaviour is covered by the other properties); four user-declared alias types.", "§3 C12"),
+
+ "C02": ("B", "exhaustive enumeration of (tree, per-node option combination, leaf text) against an independent reference renderer",
+         "Every tree of the bounded family: all 16 flag combinations x symbol / delimiter x 4 encapsulation lists on the root of every kind over 0..2 leaves from ten texts (multi-byte, embedded blanks and tabs, the empty string, numbers, bool); every root configuration over nested stacks (7 configurations x 4 kinds x 3 contents, empty, BASIC, alias) and Conditions (valid, invalid, numeric, multi-byte, Stack expression, parenthetical / encapsulated / unpadded, empty expression); the full per-node product on one child under six root configurations; depth 3 in the thorough tier. String() must equal, character for character, the rendering computed by a reference renderer written from the statement (join rule, lead-once, fold, symbol, delimiter, encapsulation outermost-first, nested NOT prefix, parentheses, final blank condensing, nothing for BASIC / empty / invalid children).",
+         "Trusted: the reference renderer and the blank-placement rule of DESIGN.md §4 where the statement is silent (pinned by the repository's own tests); nil/struct leaves are outside the domain.", "§3 C02"),
 }
 not_built = {f"C{i:02d}" for i in range(1,21)} - set(checks)
 m = {
